@@ -13,9 +13,9 @@ LEVEL = "exploration"
 TERMS = ["2", "-3", "0.5", "x", "y", "2x", "-3x", "x^2", "2x^2", "3y", "-x", "y^2", "4x^3", "x^0", "0"]
 # terms for the like-relation: products of several variables included (the relation compares variable lists)
 REL_TERMS = TERMS + ["x * y", "y * x", "x * x", "2x * y", "x * y * z", "x^2 * y", "x * 2", "3 * 4", "x / y", "-(x * y)", "x * y^2"]
-COEFS = [None, 1, 2, -3, 0.5, 0, -1, 12, -2.5]
+COEFS = [None, 1, 2, -3, 0.5, 0, -1, 12, -2.5, 2.0, 9, 15]
 VARS = [None, "x", "y"]
-EXPS = [None, 2, 0, -1, 0.5, 1, 3]
+EXPS = [None, 2, 0, -1, 0.5, 1, 3, 2.0]
 
 
 def parse(text):
